@@ -187,7 +187,8 @@ Section Construct.
                         | _ => Raise EDomain
                         end;
             do fac <- sub b;
-            Ok (PDefDict id (s "collections") (s "defaultdict") fac items)
+            do (m, c) <- gt h;                      (* C04-F2 repaired: gettype(module, class)(None, main) *)
+            Ok (PDefDict id m c fac items)
         | _ => Raise EOther
         end
     | KList | KSet =>
